@@ -3,6 +3,7 @@ package main
 import (
 	"context"
 	"fmt"
+	"regexp"
 	"sync"
 	"go/types"
 	"sort"
@@ -59,6 +60,8 @@ type Env struct {
 	curState      *State
 	replay        *ReplayInfo
 	asserted      map[string]bool
+	partials      []*partialHavoc
+	qvCache       map[string]bool
 	opaque        map[string]bool
 	next0         string
 	leafTypes     map[string]types.Type
@@ -185,13 +188,29 @@ func (e *Env) discharge(ob *Obligation) {
 	<-solverSlots
 	if res.Verdict == Unknown {
 		solverSlots <- struct{}{}
-		r2 := raceSolvers(script, e.timeoutMs, []int{0, 1, 2})
+		r2 := raceSolvers(script, e.timeoutMs, []int{0, 1, 2, 3})
 		<-solverSlots
 		r2.Time += res.Time
 		if r2.Verdict == Unknown {
 			r2.Solver = res.Solver + ":unknown," + r2.Solver
 		}
 		res = r2
+		// relevance pruning: drop quantified assumptions unrelated to the goal (sound: fewer
+		// assumptions); two widening rounds
+		for round := 1; round <= 2 && res.Verdict == Unknown; round++ {
+			pruned := pruneScript(script, round)
+			if pruned == "" {
+				break
+			}
+			solverSlots <- struct{}{}
+			r3 := raceSolvers(pruned, e.timeoutMs, []int{0, 1, 3})
+			<-solverSlots
+			if r3.Verdict == Unsat {
+				r3.Time += res.Time
+				r3.Solver += fmt.Sprintf("(pruned-%d)", round)
+				res = r3
+			}
+		}
 		if res.Verdict == Unknown {
 			// the same query without quantified assumptions: if that is unsat the obligation is
 			// proved from fewer assumptions; if sat, its model is a diagnostic hint only
@@ -283,3 +302,117 @@ func sortedKeys(m map[string]bool) []string {
 }
 
 var _ = types.Typ
+
+// quickValid asks the solver (synchronously, short timeout) whether a fact follows from
+// the assumptions made so far. Used only to simplify the model; "don't know" is false.
+func (e *Env) quickValid(fact string) bool {
+	if fact == tTrue {
+		return true
+	}
+	key := "qv:" + fact
+	if v, ok := e.qvCache[key]; ok {
+		return v
+	}
+	// only the quantifier-free assumptions are used: fast and stable
+	var sb strings.Builder
+	for _, ln := range strings.Split(e.sess.Prefix(), "\n") {
+		if strings.HasPrefix(ln, "(assert") && (strings.Contains(ln, "(forall ") || strings.Contains(ln, "(exists ")) {
+			continue
+		}
+		sb.WriteString(ln + "\n")
+	}
+	script := sb.String() + "(assert " + mkNot(fact) + ")\n(check-sat)\n"
+	solverSlots <- struct{}{}
+	r := runSolver(context.Background(), solvers[0], script, 3000)
+	<-solverSlots
+	if e.qvCache == nil {
+		e.qvCache = map[string]bool{}
+	}
+	e.qvCache[key] = r.Verdict == Unsat
+	return r.Verdict == Unsat
+}
+
+var symRe = regexp.MustCompile(`\|[^|]*\|`)
+
+// pruneScript keeps declarations, quantifier-free assertions and those quantified
+// assertions that are connected to the final (goal) assertion through shared symbols
+// within the given number of rounds.
+func pruneScript(script string, rounds int) string {
+	lines := strings.Split(script, "\n")
+	goalIdx := -1
+	for i := len(lines) - 1; i >= 0; i-- {
+		if strings.HasPrefix(lines[i], "(assert") {
+			goalIdx = i
+			break
+		}
+	}
+	if goalIdx < 0 {
+		return ""
+	}
+	syms := func(l string) []string { return symRe.FindAllString(l, -1) }
+	rel := map[string]bool{}
+	for _, s := range syms(lines[goalIdx]) {
+		rel[s] = true
+	}
+	isQ := func(l string) bool {
+		return strings.HasPrefix(l, "(assert") && (strings.Contains(l, "(forall ") || strings.Contains(l, "(exists "))
+	}
+	// close over quantifier-free definitions  (assert (= |d!k| ...))
+	closeDefs := func() {
+		changed := true
+		for changed {
+			changed = false
+			for i, l := range lines {
+				if i == goalIdx || !strings.HasPrefix(l, "(assert (= |") || isQ(l) {
+					continue
+				}
+				ss := syms(l)
+				if len(ss) == 0 || !rel[ss[0]] {
+					continue
+				}
+				for _, s := range ss[1:] {
+					if !rel[s] {
+						rel[s] = true
+						changed = true
+					}
+				}
+			}
+		}
+	}
+	closeDefs()
+	keepQ := map[int]bool{}
+	for r := 0; r < rounds; r++ {
+		for i, l := range lines {
+			if !isQ(l) || keepQ[i] || i == goalIdx {
+				continue
+			}
+			for _, s := range syms(l) {
+				if rel[s] && !strings.HasPrefix(s, "|$") {
+					keepQ[i] = true
+					break
+				}
+			}
+		}
+		for i := range keepQ {
+			for _, s := range syms(lines[i]) {
+				if !strings.HasPrefix(s, "|$") {
+					rel[s] = true
+				}
+			}
+		}
+		closeDefs()
+	}
+	dropped := 0
+	var sb strings.Builder
+	for i, l := range lines {
+		if isQ(l) && i != goalIdx && !keepQ[i] {
+			dropped++
+			continue
+		}
+		sb.WriteString(l + "\n")
+	}
+	if dropped == 0 {
+		return ""
+	}
+	return sb.String()
+}
